@@ -17,6 +17,8 @@ import (
 	"math"
 	"math/rand"
 	"net"
+	"net/http"
+	"net/http/httptest"
 	"net/url"
 	"reflect"
 	"strings"
@@ -110,6 +112,7 @@ func checkC09(c *Ctx) {
 	c09Dispatch(c)
 	c09Values(c)
 	c09Scenes(c)
+	c09Nested(c)
 	c09EndToEnd(c)
 }
 
@@ -724,4 +727,108 @@ func c09Scenes(c *Ctx) {
 		}
 		c.Count(strings.Join(descr, ";"), nontrivial, "stream:scene", fmt.Sprintf("scene:entries=%d", len(ents)))
 	})
+}
+
+// ---- (E) an answer that is still being written while another request is answered ----------------------------------------
+
+// nestWriter serves another request, completely and on the same goroutine, from inside its k-th Write call: what a
+// second controller's request does to the first controller's answer when it is scheduled in the middle of the chunked
+// write-out (same goroutine ⇒ same processor-local caches, so interference is deterministic, not a matter of luck).
+type nestWriter struct {
+	h      http.Header
+	code   int
+	buf    bytes.Buffer
+	writes int
+	at     int
+	nested func()
+}
+
+func (w *nestWriter) Header() http.Header { return w.h }
+func (w *nestWriter) WriteHeader(c int)   { w.code = c }
+func (w *nestWriter) Write(b []byte) (int, error) {
+	w.writes++
+	if w.writes == w.at && w.nested != nil {
+		f := w.nested
+		w.nested = nil
+		f()
+	}
+	return w.buf.Write(b)
+}
+
+func c09Nested(c *Ctx) {
+	for i := 0; i < c.Pick(12, 300); i++ {
+		id := c.CaseID("nested", i)
+		if c.Skip(id) {
+			continue
+		}
+		r := c.CaseRng("nested", i)
+		// an accessory with several long string values (the answer takes several 2048-byte chunks)
+		acc := accessory.New(accessory.Info{Name: "N"}, accessory.TypeOther)
+		svc := service.New("F00E")
+		var ids []string
+		want := map[uint64]string{}
+		var chars []*characteristic.String
+		for k := 0; k < 3+r.Intn(5); k++ {
+			s := characteristic.NewString(fmt.Sprintf("F2%02X", k))
+			s.Perms = characteristic.PermsRead()
+			svc.AddCharacteristic(s.Characteristic)
+			chars = append(chars, s)
+		}
+		acc.AddService(svc)
+		f, addr, err := verifiedFixture(c, []*accessory.Accessory{acc})
+		if err != nil {
+			c.Violate("C09 fixture cannot be built", id, nil, "fixture", err.Error())
+			continue
+		}
+		for k, s := range chars {
+			v := strings.Repeat(string(rune('a'+k)), 500+r.Intn(3000))
+			s.SetValue(v)
+			want[s.ID] = v
+			ids = append(ids, fmt.Sprintf("%d.%d", acc.ID, s.ID))
+		}
+		// a second verified connection
+		addr2 := "10.0.9.77:4000"
+		f.Session(addr2)
+		sec, _ := crypto.NewSecureSessionFromSharedKey([32]byte{9})
+		f.Session(addr2).SetCryptographer(sec)
+		responseWritten(f.ctx, f.raw[addr2])
+		kind := []string{"characteristics", "accessories", "one"}[r.Intn(3)]
+		nw := &nestWriter{h: http.Header{}, code: 200, at: 1 + r.Intn(3)}
+		nw.nested = func() {
+			switch kind {
+			case "characteristics":
+				rev := append([]string{}, ids...)
+				for a, b := 0, len(rev)-1; a < b; a, b = a+1, b-1 {
+					rev[a], rev[b] = rev[b], rev[a]
+				}
+				f.Do(addr2, "GET", "/characteristics?id="+strings.Join(rev, ","), "", nil)
+			case "accessories":
+				f.Do(addr2, "GET", "/accessories", "", nil)
+			default:
+				f.Do(addr2, "GET", "/characteristics?id="+ids[len(ids)-1], "", nil)
+			}
+		}
+		req := httptest.NewRequest("GET", "/characteristics?id="+strings.Join(ids, ","), nil)
+		req.RemoteAddr = addr
+		msg, pan := safely(func() { f.server.Mux.ServeHTTP(nw, req) })
+		in := map[string]interface{}{"ids": len(ids), "another_request_answered_inside_write_call": nw.at, "other_request": kind, "answer_bytes": nw.buf.Len()}
+		if pan {
+			c.Violate("GET /characteristics panics", id, in, "answer", msg)
+			f.Close()
+			continue
+		}
+		es, ok := parseGetBody(bytes.TrimSpace(nw.buf.Bytes()))
+		bad := !ok || len(es) != len(ids)
+		for k := 0; !bad && k < len(es); k++ {
+			if v, _ := es[k].Value.(string); es[k].Iid != chars[k].ID || v != want[chars[k].ID] {
+				bad = true
+			}
+		}
+		if bad {
+			c.Violate("GET /characteristics does not return the value the application set (another controller's request was answered while this answer was being written)", id, in,
+				fmt.Sprintf("%d entries with the values set", len(ids)), trunc(nw.buf.String(), 200))
+		}
+		c.Count(fmt.Sprint("nested/", len(ids), nw.at, kind), nw.writes >= nw.at, "stream:nested", "nested:"+kind)
+		f.Close()
+	}
 }
